@@ -1,1 +1,208 @@
-/-! C01 — property theorems (stub; no obligations yet) -/
+import Ypv.Lemmas.Order
+/-!
+# C01 — query results equal the documented segment semantics
+-/
+namespace Ypv.C01
+open Ypv Ypv.Eval Ypv.Spec Gen
+
+variable (mt : Matcher) (dsc : Desc)
+
+/-- **The evaluator computes the specification.**  For every matcher, every reading of search
+attributes, every segment list and every start (a document node with any coordinates, or a virtual
+slice list), `_get_required_nodes` (with its probing of following segments, its early `break`s, its
+`traverse_lists` flag) yields exactly what the compositional `Spec.select` yields: the same nodes with
+the same coordinates, in the same order, with the same multiplicity, followed by the same exception
+(if any). -/
+theorem required_eq_select : ∀ (segs : List ESeg) (r : Res),
+    required mt dsc segs r = select mt dsc segs r := by
+  intro segs
+  induction segs with
+  | nil => intro r; simp [required, select]
+  | cons s rest ih =>
+    intro r
+    have ihf : required mt dsc rest = select mt dsc rest := funext ih
+    cases r with
+    | virt items => simp [required, select, stepRes, ihf]
+    | real nc =>
+      obtain ⟨n, c⟩ := nc
+      by_cases hm : s = .matchAll
+      · subst hm
+        cases rest with
+        | nil => simp [required, select, stepRes, stepSeg, reals]
+        | cons nxt rest' =>
+          simp only [required, select, stepRes, stepSeg, reals, bind_map, bind_ofList]
+          rw [filterFirst_bind]
+          · rw [← ihf, bindList_map]
+            apply bindList_congr
+            intro x
+            simp [required, stepRes]
+          · intro x e hx
+            simp [hx]
+      · by_cases ht : s = .traverse
+        · subst ht
+          cases rest with
+          | nil => simp [required, select, stepRes, stepSeg, leaves, walk_eq]
+          | cons nxt rest' =>
+            simp only [required, select, stepRes, stepSeg, bind_map, walk_eq, bindList_bind]
+            by_cases hr : nxt.isTraverse = true
+            · obtain ⟨t, ht⟩ := preorder_head n c
+              simp [hr, ht, recursionGuard]
+            · simp only [hr, recursionGuard, Bool.and_false, Bool.false_eq_true, if_false]
+              apply bindList_congr
+              intro x
+              rw [stepSeg_tl_false]
+              by_cases hd : direct nxt x.1 = true
+              · simp only [hd, if_true]
+                rw [← ihf]
+                have : required mt dsc (nxt :: rest') (Res.real x)
+                    = (stepSeg mt dsc nxt rest' true x.1 x.2).bind (required mt dsc rest') := by
+                  simp [required, stepRes]
+                rw [this]
+                exact ifAny_bind _ _ _ (fun e he => by simp [he])
+              · simp [hd]
+        · simp only [required, stepRes]
+          rw [stepSeg_children mt dsc s rest n c hm ht, ihf]
+          cases s <;> simp_all [select]
+
+/-- `Processor.get_nodes(path, mustexist=True)` delivers `Spec.select` of the path on the document
+(nothing for a null document), and raises "unmatched" after an empty selection. -/
+theorem getRequired_eq_select (segs : List ESeg) (d : Node) :
+    getRequired mt dsc segs d =
+      if d.isNull then Gen.nil else
+      Gen.append (select mt dsc segs (.real (d, Ctx.root)))
+        (if (select mt dsc segs (.real (d, Ctx.root))).1.isEmpty then Gen.fail (.ypath .unmatched) else Gen.nil) := by
+  simp [getRequired, required_eq_select]
+
+/-- `Processor.exists(path)` is true exactly when the specification selects at least one node
+(and raises exactly when the selection raises). -/
+theorem exists_iff_select_nonempty (segs : List ESeg) (d : Node) :
+    existsQ mt dsc segs d =
+      if d.isNull then .ok false else
+      match (select mt dsc segs (.real (d, Ctx.root))).collapse with
+      | .ok l => .ok (!l.isEmpty)
+      | .error e => .error e := by
+  simp only [existsQ, required_eq_select]
+  split <;> rfl
+
+/-- "A path that already exists": along the evaluation no creating segment (key, index, slice,
+anchor) comes up empty, and no null node is selected before the last segment.  Decidable. -/
+def allExist : List ESeg → Res → Bool
+  | [], _ => true
+  | s :: rest, r =>
+    let g := stepRes mt dsc s rest r
+    !(g.1.isEmpty && g.2.isNone && s.creates)
+      && g.1.all (fun r' => (rest.isEmpty || !r'.isNullNode) && allExist rest r')
+
+/-- An optional-match query on a path that already exists answers like the required-match query. -/
+theorem optional_eq_required_of_exists : ∀ (segs : List ESeg) (r : Res),
+    allExist mt dsc segs r = true → Eval.optional mt dsc segs r = required mt dsc segs r := by
+  intro segs
+  induction segs with
+  | nil => intro r _; rfl
+  | cons s rest ih =>
+    intro r h
+    simp only [allExist, Bool.and_eq_true, List.all_eq_true, Bool.or_eq_true, Bool.not_eq_true',
+      Bool.not_eq_eq_eq_not, Bool.not_true] at h
+    obtain ⟨h1, h2⟩ := h
+    simp only [Eval.optional, required]
+    have hb : (stepRes mt dsc s rest r).bind
+          (fun r' => if r'.isNullNode = true then Gen.one r' else Eval.optional mt dsc rest r')
+        = (stepRes mt dsc s rest r).bind (required mt dsc rest) := by
+      apply bind_congr_mem
+      intro x hx
+      obtain ⟨hn, ha⟩ := h2 x hx
+      rw [ih x ha]
+      by_cases hx0 : x.isNullNode = true
+      · simp only [hx0, if_true]
+        cases hn with
+        | inl he =>
+          cases rest with
+          | nil => rfl
+          | cons _ _ => simp at he
+        | inr hf => simp [hx0] at hf
+      · simp [hx0]
+    rw [hb]
+    by_cases hc : ((stepRes mt dsc s rest r).1.isEmpty && s.creates) = true
+    · simp only [hc, if_true]
+      have hne : (stepRes mt dsc s rest r).2 ≠ none := by
+        intro hnone
+        simp only [Bool.and_eq_true] at hc
+        simp [hc.1, hc.2, hnone] at h1
+      obtain ⟨e, he⟩ := Option.ne_none_iff_exists'.mp hne
+      have hemp : (stepRes mt dsc s rest r).1 = [] := by
+        simp only [Bool.and_eq_true, List.isEmpty_iff] at hc
+        exact hc.1
+      have : stepRes mt dsc s rest r = ([], some e) := by
+        rw [← hemp, ← he]
+      rw [this]
+      simp
+      rfl
+    · simp [hc]
+
+example : allExist (fun _ _ _ => .ok true) Desc.none [.key ['a'], .index 0]
+    (.real (.map none [(.str ['a'], .seq none [.scalar none (.int 1)])], Ctx.root)) = true := by
+  decide +kernel
+
+/-- **Document order, none twice.**  For a well-formed document and a path without `**` and without
+slices, the addresses of the selected nodes form a subsequence of the document's addresses in document
+order (pre-order), and no address occurs twice.  (More is proved in `ord_required`: the subtrees of the
+results are pairwise disjoint.) -/
+theorem select_sorted_nodup {d : Node} (hd : d.WF) (segs : List ESeg) (hs : ∀ s ∈ segs, s.ordered = true) :
+    ((flatR (select mt dsc segs (.real (d, Ctx.root))).1).map (·.2.addr)).Sublist (addrsAll d [])
+    ∧ ((flatR (select mt dsc segs (.real (d, Ctx.root))).1).map (·.2.addr)).Nodup := by
+  rw [← required_eq_select]
+  have h := ord_required (mt := mt) (dsc := dsc) segs hs d Ctx.root
+  have hsub := List.Sublist.trans (addrs_sublist_flatMap_sub _) h
+  exact ⟨hsub, List.Nodup.sublist hsub (addrsAll_nodup d hd [])⟩
+
+/-- `select_traverse_nodup` does NOT hold, for the specification and for the implementation alike:
+after `**` a scalar is selected once as the value of a matching key of its parent and once as a
+matching scalar itself.  `**[.=x]` on `{x: x}` selects the node at `x` twice (reproduced on the real
+code; recorded in notes/C01.md as a reading of "`**` matches every node for which the following
+segments match"). -/
+example :
+    (flatR (select (fun _ n t => match n with | .scalar _ (.str s) => .ok (s == t) | _ => .ok false) Desc.none
+      [.traverse, .search false .equals ['.'] ['x']]
+      (.real (.map none [(.str ['x'], .scalar none (.str ['x']))], Ctx.root))).1).map (·.2.addr)
+    = [[.key (.str ['x'])], [.key (.str ['x'])]] := by decide +kernel
+
+/-! ## What the per-kind children are (sanity of the table in `Spec/Select.lean`) -/
+
+/-- `[n]` / a bare integer key on a list is Python indexing: the element at `n` (from the end when
+negative) when `-len ≤ n < len`, nothing otherwise — never an exception. -/
+theorem elemAt_spec (items : List Node) (i : Int) (c : Ctx) :
+    elemAt items i c =
+      if h : inRange items.length i = true then
+        match items[normIdx items.length i]? with
+        | some x => Gen.one (x, c.child (.idx (normIdx items.length i)) (.idx i) (idxSection i))
+        | none => Gen.nil
+      else Gen.nil := by
+  unfold elemAt
+  by_cases h : inRange items.length i = true
+  · obtain ⟨x, hx⟩ := pyGetItem_inRange items i h
+    have := pyGetItem_spec items i x h hx
+    simp [h, hx, this]
+  · simp [h]
+
+/-- A non-integer key on a list passes through to every element, in order. -/
+theorem keyStep_passThrough (k : Str) (a : Option Str) (items : List Node) (c : Ctx) (hk : pyInt? k = none) :
+    keyStep k true (.seq a items) c
+      = Gen.bindList (fun x => keyStep k true x.1 x.2) (seqKidsFrom c items 0) := by
+  have : ∀ (l : List Node) (i : Nat), keyStep.passThrough k true c l i
+      = Gen.bindList (fun x => keyStep k true x.1 x.2) (seqKidsFrom c l i) := by
+    intro l
+    induction l with
+    | nil => intro i; rfl
+    | cons n ns ih => intro i; simp [keyStep.passThrough, seqKidsFrom, ih]
+  simp [keyStep, hk, this]
+
+/-- The positions a list slice selects are those of Python's `data[lo:hi]`: consecutive, starting at the
+clamped `lo`, ending before the clamped `hi`. -/
+theorem sliceIndices_spec (len : Nat) (lo hi : Int) :
+    sliceIndices len lo hi = (List.range (sliceStart len hi - sliceStart len lo)).map (· + sliceStart len lo)
+    ∧ sliceStart len lo ≤ len ∧ sliceStart len hi ≤ len :=
+  ⟨rfl, sliceStart_le len lo, sliceStart_le len hi⟩
+
+example : sliceIndices 3 0 (-1) = [0, 1] := by decide +kernel
+example : sliceIndices 2 1 9 = [1] := by decide +kernel
+example : sliceIndices 4 (-3) (-1) = [1, 2] := by decide +kernel
